@@ -126,11 +126,11 @@ func c20WorldSwap(t *testing.T, g *rng) *c20Rich {
 	}
 	batchOrders := func(round int) {
 		amt := int64(1+g.intn(9)) * 1000000
-		limit(11, p1, true, "1.9", amt, time.Hour)                 // rests
-		limit(12, p1, true, "2.05", 5*amt, time.Hour)              // crosses the pools
-		limit(13, p1, false, "2.1", amt, 0)                        // expires with the batch
-		limit(14, p1, false, "1.95", 3*amt, time.Hour)             // crosses
-		limit(15, p1, true, "2.1", 50000000000+amt, 10*time.Second)  // too large to fill: partially matched
+		limit(11, p1, true, "1.9", amt, time.Hour)                  // rests
+		limit(12, p1, true, "2.05", 5*amt, time.Hour)               // crosses the pools
+		limit(13, p1, false, "2.1", amt, 0)                         // expires with the batch
+		limit(14, p1, false, "1.95", 3*amt, time.Hour)              // crosses
+		limit(15, p1, true, "2.1", 50000000000+amt, 10*time.Second) // too large to fill: partially matched
 		limit(16, p2, true, "10.1", amt, time.Hour)
 		limit(11, p2, false, "9.9", amt/2+1, time.Hour)
 		exec("market", liqtypes.NewMsgMarketOrder(fx.appL, addrN(12), p1.Id, liqtypes.OrderDirectionBuy, sdk.NewCoin(p1.QuoteCoinDenom, sdk.NewInt(3*amt)), p1.BaseCoinDenom, sdk.NewInt(amt), 0))
@@ -201,7 +201,9 @@ func c20WorldSwap(t *testing.T, g *rng) *c20Rich {
 			}
 			return liqtypes.NewMsgCancelOrder(fx.appL, user(11), p1.Id, 1)
 		})
-		tw.msg("liq.cancel-all", "liquidity", func(ctx sdk.Context) sdk.Msg { return liqtypes.NewMsgCancelAllOrders(fx.appL, user(12), []uint64{p1.Id}) })
+		tw.msg("liq.cancel-all", "liquidity", func(ctx sdk.Context) sdk.Msg {
+			return liqtypes.NewMsgCancelAllOrders(fx.appL, user(12), []uint64{p1.Id})
+		})
 		tw.msg("liq.withdraw-ranged", "liquidity", func(ctx sdk.Context) sdk.Msg {
 			have := a.BankKeeper.GetBalance(ctx, user(13), ranged[0].PoolCoinDenom)
 			return liqtypes.NewMsgWithdraw(fx.appL, user(13), ranged[0].Id, sdk.NewCoin(ranged[0].PoolCoinDenom, have.Amount.QuoRaw(2).AddRaw(1)))
@@ -360,7 +362,9 @@ func c20WorldLend(t *testing.T, g *rng) *c20Rich {
 		})
 		on("lend.close", func(x *c09bCase) { x.closeBorrow(ids[1]) })
 		tw.begin(3600*time.Second, "lend", "liquidationsV2", "auctionsV2")
-		tw.msg("lend.interest", "lend", func(ctx sdk.Context) sdk.Msg { return lendtypes.NewMsgCalculateInterestAndRewards(c.owner[ids[3]].String()) })
+		tw.msg("lend.interest", "lend", func(ctx sdk.Context) sdk.Msg {
+			return lendtypes.NewMsgCalculateInterestAndRewards(c.owner[ids[3]].String())
+		})
 		on("lend.price-drop", func(x *c09bCase) { x.setPrice(w.assets[1], w.normal[w.assets[1]]*45/100, true) })
 		tw.begin(6*time.Second, "lend", "liquidationsV2", "auctionsV2") // the sweep finds the borrows the price drop made unsafe
 		tw.begin(4000*time.Second, "lend", "liquidationsV2", "auctionsV2")
@@ -499,8 +503,12 @@ func c20WorldFees(t *testing.T, g *rng) *c20Rich {
 		lk := a.LockerKeeper.GetLockers(w.ctx)
 		if len(lk) > 0 {
 			l := lk[0]
-			on("locker.deposit", "locker", func(x *c13World, r *rng) { x.c13Deposit(x.c13UserIdx(l.Depositor), l.AppId, l.AssetDepositId, l.LockerId, sdk.NewInt(1000000)) })
-			on("locker.withdraw", "locker", func(x *c13World, r *rng) { x.c13Withdraw(x.c13UserIdx(l.Depositor), l.AppId, l.AssetDepositId, l.LockerId, sdk.NewInt(500000)) })
+			on("locker.deposit", "locker", func(x *c13World, r *rng) {
+				x.c13Deposit(x.c13UserIdx(l.Depositor), l.AppId, l.AssetDepositId, l.LockerId, sdk.NewInt(1000000))
+			})
+			on("locker.withdraw", "locker", func(x *c13World, r *rng) {
+				x.c13Withdraw(x.c13UserIdx(l.Depositor), l.AppId, l.AssetDepositId, l.LockerId, sdk.NewInt(500000))
+			})
 			on("locker.reward", "locker", func(x *c13World, r *rng) { x.c13RewardCalc(x.c13UserIdx(l.Depositor), l.AppId, l.LockerId) })
 		}
 		on("locker.create", "locker", func(x *c13World, r *rng) { x.c13Create(2, apps[1], assets[1], sdk.NewInt(2000000)) })
